@@ -132,11 +132,11 @@ func c21Threshold(r *rand.Rand) int64 {
 // anchors for `now` (internal seconds since year 1)
 var c21Nows = [][2]int64{
 	{c21UnixToInternal + 1790000000, 123456789}, // 2026
-	{c21UnixToInternal, 0},                         // 1970
-	{0, 0},                                         // zero time
+	{c21UnixToInternal, 0},                      // 1970
+	{0, 0},                                      // zero time
 	{0, 1},
-	{c21UnixToInternal - 9214646400, 0},           // 1678
-	{c21UnixToInternal + 9214646400, 999999999},   // 2262
+	{c21UnixToInternal - 9214646400, 0}, // 1678
+	{c21UnixToInternal + 9214646400, 999999999}, // 2262
 	{math.MaxInt64, 999999999},
 	{math.MinInt64, 0},
 	{math.MinInt64 + c21UnixToInternal - 1, 0}, // time.Unix(1<<63-1, 0): "year 292277026596"
@@ -147,11 +147,17 @@ var c21Nows = [][2]int64{
 
 // offsets (now - t, exact ns) aimed at the comparisons and at the saturation / wrap points
 func c21Offset(r *rand.Rand, th int64) *big.Int {
+	return c21OffsetK(r, th, r.Intn(c21NClass), int64(r.Intn(5))-2)
+}
+
+const c21NClass = 14
+
+func c21OffsetK(r *rand.Rand, th int64, class int, sm int64) *big.Int {
 	b := func(v int64) *big.Int { return big.NewInt(v) }
 	two63 := new(big.Int).Lsh(big.NewInt(1), 63)
-	small := b(int64(r.Intn(5)) - 2)
+	small := b(sm)
 	var o *big.Int
-	switch r.Intn(14) {
+	switch class {
 	case 0:
 		o = b(0)
 	case 1: // around the threshold
@@ -237,7 +243,7 @@ func c21MonoOff(r *rand.Rand, th int64) int64 {
 	case 4:
 		return r.Int63n(7200e9) - 3600e9
 	case 5: // outside the packed wall-second range: monotonic reading dropped by Add
-		return (r.Int63n(2) * 2 - 1) * (150 * 365 * 86400 * 1e9)
+		return (r.Int63n(2)*2 - 1) * (150 * 365 * 86400 * 1e9)
 	case 6:
 		return (r.Int63() - r.Int63()) / 2
 	}
@@ -249,25 +255,46 @@ func init() {
 		Gen: func(r *rand.Rand, n int, tier string, emit func(...string)) {
 			// the design's grid: every anchor for now x every threshold, each stamp in turn moved
 			grid := 1
-			if tier == "thorough" {
-				grid = 6
+			type cs struct {
+				class int
+				sm    int64
+			}
+			combos := []cs{{-1, 0}}
+			if tier == "thorough" { // exhaustive: every offset class x every +-2ns neighbour
+				combos = nil
+				grid = 1
+				for c := 0; c < c21NClass; c++ {
+					for sm := int64(-2); sm <= 2; sm++ {
+						combos = append(combos, cs{c, sm})
+					}
+				}
 			}
 			for g := 0; g < grid; g++ {
 				for _, now := range c21Nows {
 					for _, th := range c21Thresholds {
 						for which := 2; which < 7; which++ {
-							var ts [7][2]int64
-							ts[0] = now
-							for i := 1; i < 7; i++ { // everything else long ago (or as far back as representable)
-								old := new(big.Int).Sub(c21NS(now[0], now[1]), new(big.Int).Lsh(big.NewInt(1), 64))
-								if sec, nsec, ok := c21Split(old); ok {
-									ts[i] = [2]int64{sec, nsec}
-								} else {
-									ts[i] = [2]int64{math.MinInt64, 1}
+							for _, cb := range combos {
+								var ts [7][2]int64
+								ts[0] = now
+								for i := 1; i < 7; i++ { // everything else long ago (or as far back as representable)
+									old := new(big.Int).Sub(c21NS(now[0], now[1]), new(big.Int).Lsh(big.NewInt(1), 64))
+									if sec, nsec, ok := c21Split(old); ok {
+										ts[i] = [2]int64{sec, nsec}
+									} else {
+										ts[i] = [2]int64{math.MinInt64, 1}
+									}
 								}
+								ts[which] = c21Stamp(r, now, th)
+								if cb.class >= 0 {
+									ns := new(big.Int).Sub(c21NS(now[0], now[1]), c21OffsetK(r, th, cb.class, cb.sm))
+									if sec, nsec, ok := c21Split(ns); ok {
+										ts[which] = [2]int64{sec, nsec}
+									} else {
+										continue
+									}
+								}
+								c21Emit(emit, "S", 3, th, ts)
 							}
-							ts[which] = c21Stamp(r, now, th)
-							c21Emit(emit, "S", 3, th, ts)
 						}
 					}
 				}
